@@ -54,7 +54,7 @@ Definition chk_closed3 (t : ftab) : bool :=
   negb (is3d t) || (chk_pairing (fnvert t) (face_cycles t) && chk_pairing (fnvert t) (surf_cycles t)).
 
 Lemma all_closed3 : forallb chk_closed3 all_ftabs = true.
-Proof. vm_compute. reflexivity. Qed.
+Proof. vm_cast_no_check (eq_refl true). Qed.
 
 Definition swap (p : nat * nat) : nat * nat := (snd p, fst p).
 
@@ -105,7 +105,7 @@ Definition chk_closed2 (t : ftab) : bool :=
    | _ => false
    end).
 Lemma all_closed2 : forallb chk_closed2 all_ftabs = true.
-Proof. vm_compute. reflexivity. Qed.
+Proof. vm_cast_no_check (eq_refl true). Qed.
 
 Theorem segment_tables_close_comb : forall t, In t all_ftabs -> fdim t = 2 ->
   List.length (fsegments t) = fnvert t /\
@@ -185,7 +185,7 @@ Definition chk_area_flux3 (t : ftab) : bool :=
    pe_eqb (pe_sum (map flux2 (surf_cycles t))) (PEmul (PEc 6%Q) (measure_star (parent_elem t)))).
 
 Lemma all_area_flux3 : forallb chk_area_flux3 all_ftabs = true.
-Proof. vm_compute. reflexivity. Qed.
+Proof. vm_cast_no_check (eq_refl true). Qed.
 
 Definition Rvsum (l : list R3) : R3 := fold_right Rvadd (0, 0, 0)%R l.
 Lemma Rv_pvsum l vs : Rv l (pvsum vs) = Rvsum (map (Rv l) vs).
@@ -246,7 +246,7 @@ Definition chk_face_integrals (e : elem) (f : list nat) : bool :=
   pe_eqb (PEmul (PEc 2%Q) (rule_sum (star_of (ename e)) (pdot (xmap e) (normal_field e)))) (flux2 f).
 
 Lemma face_integrals_ok : chk_face_integrals el_TRI3 [0; 1; 2] && chk_face_integrals el_QUAD4 [0; 1; 2; 3] = true.
-Proof. vm_compute. reflexivity. Qed.
+Proof. vm_cast_no_check (eq_refl true). Qed.
 
 Theorem face_formulas_are_normal_integrals : forall l : list R,
   Rv l (pscale (PEc 2%Q) (vrule_sum star_Tri (normal_field el_TRI3))) = Rv l (area2 [0; 1; 2]) /\
@@ -283,7 +283,7 @@ Definition chk_seg_flux (t : ftab) : bool :=
    pe_eqb (flatten (pe_sum (map (fun p => seg_flux (fst p) (snd p)) es)))
           (flatten (PEopp (PEmul (PEc 2%Q) (measure_star (parent_elem t)))))).
 Lemma all_seg_flux : forallb chk_seg_flux all_ftabs = true.
-Proof. vm_compute. reflexivity. Qed.
+Proof. vm_cast_no_check (eq_refl true). Qed.
 
 (* 2-D analogue: for every 2-D type the boundary edges of `segments`, with the code's normal
    formula, satisfy  sum int n = 0  and  sum int x . n = - 2 * area  (area = integral of det J of
